@@ -117,6 +117,9 @@ CONFIGS = [
     {"hashseed": 1, "block": []},
     {"hashseed": 4242, "block": ["scoreboard_cy", "time_utils_cy", "working_hours_cy"]},
     {"hashseed": 7, "block": ["working_hours_cy"]},
+    {"hashseed": 2, "block": []},
+    {"hashseed": 31337, "block": []},
+    {"hashseed": 99, "block": ["time_utils_cy", "scoreboard_cy"]},
 ]
 COUNTS = {"quick": {"count": 120, "wall": 100}, "thorough": {"count": 6000, "wall": 1600}}
 ASSUMPTIONS = [
